@@ -287,6 +287,9 @@ class XzResult:
     @property
     def output(self):
         return b"".join(self.outputs)
+    def __iter__(self):
+        """verdict, events, outputs = xz.parse(data)"""
+        return iter((self.verdict, self.events, self.outputs))
     def __repr__(self):
         return "XzResult(%s, consumed=%d, streams=%d, blocks=%d, out=%d bytes%s)" % (
             self.verdict, self.consumed, len(self.streams), sum(len(s['blocks']) for s in self.streams),
